@@ -224,7 +224,10 @@ var localCalls = map[string]func(ctx context.Context, sr *scenRun, arg string){
 		_ = sr.p.rh.SendMessageElement(ctx, sr.fx.rs.S, nil, stanza.Message{ID: "r1", To: remote, Type: stanza.ChatMessage})
 	},
 	"ibbopen": func(ctx context.Context, sr *scenRun, arg string) {
-		c, err := sr.p.ih.OpenIQ(ctx, stanza.IQ{ID: "o1", To: remote}, sr.fx.rs.S, true, 4096, "s1")
+		// the stream's peer is the entity whose stream stanzas the scripts feed (ibbData / ibbClose
+		// come from a@b/c): since the library's repair bea89b2 a stream only takes stanzas from the
+		// entity it was opened with
+		c, err := sr.p.ih.OpenIQ(ctx, stanza.IQ{ID: "o1", To: ibbPeer}, sr.fx.rs.S, true, 4096, "s1")
 		if err == nil && c != nil {
 			sr.setConn("out", c)
 		}
@@ -764,6 +767,14 @@ func receipt(id string) string {
 	return `<message xmlns="jabber:client" from="example.net" id="x` + id + `"><received xmlns="urn:xmpp:receipts" id="` + id + `"/></message>`
 }
 
+// ibbPeer: the entity every ibb stream of the scripts is opened with / by.
+var ibbPeer = jid.MustParse("a@b/c")
+
+// stranger: the same stream stanza sent by an entity the stream was not opened with.
+func stranger(stanza string) string {
+	return strings.Replace(stanza, `from="a@b/c"`, `from="x@y/z"`, 1)
+}
+
 func ibbOpen(id, sid string) string {
 	return `<iq xmlns="jabber:client" type="set" id="` + id + `" from="a@b/c" to="me@example.net/home"><open xmlns="http://jabber.org/protocol/ibb" block-size="4096" sid="` + sid + `" stanza="iq"/></iq>`
 }
@@ -868,6 +879,10 @@ func scenarioList() []scenario {
 		sc("ibb-in-bad-data", "call:ibbaccept", feed(ibbOpen("i1", "s1")), "wait:ibbaccept", feed(strings.Replace(ibbData("i2", "s1", 0), "aGVsbG8=", "!!!!", 1)), feed(ibbData("i3", "s1", 0)), feed(ibbData("i4", "s1", 7))),
 		sc("ibb-out-open-data-close", "call:ibbopen", await(`id="o1"`), feed(iq("result", "o1", "")), "wait:ibbopen", feed(ibbData("i1", "s1", 0)), "call:ibbread.out", "wait:ibbread.out",
 			auto("<data", "result", ""), "call:ibbwrite.out", "wait:ibbwrite.out", "call:ibbclose.out", replyto("<close", "result", ""), "wait:ibbclose.out", feed(ibbData("i2", "s1", 1)), feed(ibbClose("i3", "s1"))),
+		sc("ibb-out-stranger-data-and-close", "call:ibbopen", await(`id="o1"`), feed(iq("result", "o1", "")), "wait:ibbopen", feed(stranger(ibbData("x1", "s1", 0))), feed(stranger(ibbDataMsg("s1", 0))), feed(stranger(ibbClose("x2", "s1"))), "probe",
+			feed(ibbData("i1", "s1", 0)), "call:ibbread.out", "wait:ibbread.out", feed(ibbClose("i2", "s1"))),
+		sc("ibb-in-stranger-data-and-close", "call:ibbaccept", feed(ibbOpen("i1", "s1")), "wait:ibbaccept", feed(stranger(ibbData("x1", "s1", 0))), feed(stranger(ibbClose("x2", "s1"))), feed(stranger(ibbOpen("x3", "s1"))), "probe",
+			feed(ibbData("i2", "s1", 0)), "call:ibbread.in", "wait:ibbread.in", feed(ibbClose("i3", "s1"))),
 		sc("ibb-out-open-refused-then-data", "call:ibbopen", await(`id="o1"`), feed(iq("error", "o1", errPayload)), "wait:ibbopen", feed(ibbData("i1", "s1", 0)), feed(ibbClose("i2", "s1"))),
 		sc("ibb-out-open-answered-twice", "call:ibbopen", await(`id="o1"`), feed(iq("result", "o1", "")), feed(iq("result", "o1", "")), "wait:ibbopen", feed(ibbClose("i1", "s1")), feed(ibbClose("i2", "s1"))),
 		sc("ibb-out-open-cancelled-then-accepted", "call:ibbopen", await(`id="o1"`), "cancel:ibbopen", "wait:ibbopen", feed(iq("result", "o1", "")), feed(ibbData("i1", "s1", 0)), feed(ibbClose("i2", "s1"))),
@@ -1056,6 +1071,9 @@ func pendingMatrix() []scenario {
 		{"ibb-data-seq1", ibbData("d1", "s1", 1)},
 		{"ibb-data-msg", ibbDataMsg("s1", 0)},
 		{"ibb-reopen", ibbOpen("i9", "s1")},
+		{"ibb-close-stranger", stranger(ibbClose("c1", "s1"))},
+		{"ibb-data-stranger", stranger(ibbData("d1", "s1", 0))},
+		{"ibb-reopen-stranger", stranger(ibbOpen("i9", "s1"))},
 		{"ibb-open-other", ibbOpen("i9", "s2")},
 		{"receipt", receipt("r1")},
 		{"receipt-unknown", receipt("nope")},
